@@ -186,6 +186,12 @@ func (_this *ptrBuilder) BuildBeginNodeContents(ctx *Context) {
 }
 
 func (_this *ptrBuilder) NotifyChildContainerFinished(ctx *Context, value reflect.Value) {
+	if !value.CanAddr() {
+		// Slices and maps are handed over by value: give them a home to point to.
+		addressable := reflect.New(value.Type()).Elem()
+		addressable.Set(value)
+		value = addressable
+	}
 	ctx.UnstackBuilderAndNotifyChildFinished(value.Addr())
 }
 
